@@ -8,6 +8,7 @@
 From Coq Require Import ZArith List Bool Lia.
 Import ListNotations.
 From V Require Import Base.Tree Base.Bytes C13.Model C13.Closers C13.Spec C13.Proofs C13.ProofsSys C13.ProofsClosers.
+From V Require C13.SendClose C13.ProofsSendClose.
 Open Scope Z_scope.
 
 (* (1) Cancellation.  If the passed context or the connection context is done, then for EVERY content of the package
@@ -278,6 +279,44 @@ Example C13_cancel_example :
   next_package (mkN false [] [] 0 0 false false) true = [NBlock].
 Proof. vm_compute. repeat split; reflexivity. Qed.
 
+(* (7) Close arriving WHILE a SendPackage is in progress on the same channel (C13/SendClose.v): the sender is two
+   consecutive read-lock sections (QueuePackage writing a full packets, SendRemainingPackets writing b), the closer
+   announces Lock(), waits until no read lock is held, marks the channel closed.  For EVERY number of packets and EVERY
+   schedule: the lock discipline holds, somebody can move until both calls have returned (no deadlock), there are at
+   most a + b + 17 moves in all, and at the end the channel is closed, the mutex is free, Close returned nil and
+   SendPackage returned nil or ErrChannelClosed. *)
+Theorem C13_close_during_send_terminates : forall (a b : nat) (sched : list SendClose.lab),
+  let s0 := SendClose.init false a b in
+  let s := SendClose.exec s0 sched in
+  ProofsSendClose.inv s /\
+  (SendClose.sender_done s && SendClose.closer_done s = false -> exists l s', SendClose.step s l = Some s') /\
+  SendClose.stuck s = false /\
+  (SendClose.moves s0 sched + SendClose.mu s <= a + b + 17)%nat /\
+  (SendClose.sender_done s && SendClose.closer_done s = true ->
+     SendClose.closed s = true /\ SendClose.rd s = 0%nat /\ SendClose.wpend s = false /\ SendClose.wheld s = false /\
+     SendClose.closer_code s = 0 /\ (SendClose.sender_code s = 0 \/ SendClose.sender_code s = 2)).
+Proof. exact ProofsSendClose.close_during_send_terminates. Qed.
+
+(* ... whereas with SendPackage holding the read lock around both sections (a recursive read lock) there is a schedule -
+   the sender inside its first section when Close announces its Lock() - after which neither can ever move: the sender
+   waits in the inner RLock behind the pending writer, the writer waits for the sender's outer read lock. *)
+Theorem C13_close_during_send_recursive_refuted :
+  exists sched, let s := SendClose.exec (SendClose.init true 1 1) sched in
+    SendClose.stuck s = true /\ SendClose.sender_done s = false /\ SendClose.closer_done s = false /\
+    SendClose.sp s = SendClose.SLock2 /\ SendClose.kp s = SendClose.KLockAcq /\ SendClose.rd s = 1%nat /\
+    SendClose.wpend s = true /\ forall more, SendClose.exec s more = s.
+Proof. exact ProofsSendClose.close_during_send_recursive_refuted. Qed.
+
+(* non-vacuity: the unchanged program under the corresponding schedule - Close returns nil, SendPackage the closed
+   condition after its first section's packet *)
+Example C13_close_during_send_example :
+  let s := SendClose.exec (SendClose.init false 1 1)
+             ([SendClose.LS; SendClose.LS; SendClose.LK; SendClose.LK; SendClose.LK; SendClose.LS; SendClose.LS; SendClose.LS] ++
+              [SendClose.LK; SendClose.LK; SendClose.LK; SendClose.LS; SendClose.LS; SendClose.LS; SendClose.LS]) in
+  SendClose.sender_done s = true /\ SendClose.closer_done s = true /\ SendClose.sender_code s = 2 /\
+  SendClose.closer_code s = 0 /\ SendClose.writes s = 1%nat.
+Proof. exact ProofsSendClose.same_schedule_unchanged. Qed.
+
 Print Assumptions C13_cancel_never_blocks.
 Print Assumptions C13_cancel.
 Print Assumptions C13_cancel_until_callback.
@@ -292,3 +331,5 @@ Print Assumptions C13_conn_close.
 Print Assumptions C13_reader_guard.
 Print Assumptions C13_reader_ends_partial.
 Print Assumptions C13_close_terminates_partial.
+Print Assumptions C13_close_during_send_terminates.
+Print Assumptions C13_close_during_send_recursive_refuted.
